@@ -316,5 +316,12 @@ for _p in ("C01", "C02", "C03", "C13", "C15", "C16", "C20"):
     if "fact extractor" not in " ".join(PROPS[_p]["trusted_base"]):
         PROPS[_p]["trusted_base"] = PROPS[_p]["trusted_base"] + ["fact extractor /verif/extract (go/ssa write-site table)"]
 
+PROPS["C04"]["manifest"]["text"] += (" Commitment under the legacy algorithm is a theorem too: the legacy preimage is the standard serialisation of an explicit"
+                                     " modified transaction followed by the hash type, the wire codec is injective (C01), hence equal preimages give equal modified"
+                                     " transactions and hash types (legacy_commits; spelled out for ALL in legacy_all_commits).")
+PROPS["C20"]["manifest"]["text"] += (" Tx.Inscribe is also proved on a model of Go slices over a heap (append into spare capacity): after copying the prefix the"
+                                     " appends leave every slice the caller holds unchanged and the result reads as the value model's script; machine-checked witness"
+                                     " for the header-only copy (finding F-C20-04, fixed).")
+
 NOT_APPLICABLE = {}
 HOOK_COMMITS = []
